@@ -53,7 +53,7 @@ func c12(c *rig.Ctx) {
 	c.Require(st.get("c12.routes.merge") > 0, "no merge route")
 	c.Require(st.get("c12.canon.height>=3") > 0, "no canonical tree of height >= 3")
 	c.Require(st.get("c12.canon.size_forced_boundary") > 0, "no content with giant values (size-forced boundaries)")
-	c.Require(st.get("c12.json.indexed_edits_compared") > 0, "no JSON edit took the indexed path with comparable bytes")
+	c.Require(st.get("c12.json.multi_chunk_compared") > 0 && st.get("c12.json.edits_changed") > 0, "no effective JSON edit on a multi-chunk document took the indexed path with comparable bytes")
 	c.Require(st.get("c12.blob.multi_level") > 0, "no multi-level blob")
 }
 
@@ -337,6 +337,8 @@ func c12Maps(c *rig.Ctx, st *stats, idx, total int) {
 	}
 	// route 5: conflict-free three-way merge whose result is the target
 	k.mergeRoute(siC)
+	// route 6: cut off a whole suffix / prefix of the key space, preferably exactly at a chunk boundary
+	k.truncateRoutes(siC)
 
 	st.add("c12.content_sets", 1)
 	if !k.failed && siC.nodes >= 2 {
@@ -344,6 +346,52 @@ func c12Maps(c *rig.Ctx, st *stats, idx, total int) {
 	}
 	if idx < 3 {
 		c.Sample(map[string]any{"case": k.name, "world": w.desc, "canonical": describeTree(w, k.canon)})
+	}
+}
+
+// truncateRoutes deletes every key from a cut rank upwards (or downwards) from the canonical tree: whole subtrees
+// disappear and the root may have to be re-canonicalised. The result is compared with the canonical tree of the
+// remaining content.
+func (k *c12Case) truncateRoutes(siC *shapeInfo) {
+	w, r := k.w, k.r
+	n := w.kp.n()
+	if k.target.count() < 2 {
+		return
+	}
+	for _, suffix := range []bool{true, false} {
+		cut := r.Intn(n)
+		atBoundary := false
+		if len(siC.boundaries) > 0 && r.Intn(3) > 0 {
+			cut = siC.boundaries[r.Intn(len(siC.boundaries))] + 1 // first key of the next chunk
+			atBoundary = true
+			if len(siC.upper) > 0 && r.Intn(2) == 0 { // ... of the next level-1 (or higher) subtree
+				cut = siC.upper[r.Intn(len(siC.upper))] + 1
+				k.st.add("c12.truncations.at_subtree_boundary", 1)
+			}
+		}
+		rest := k.target.clone()
+		for i := range rest {
+			if (suffix && i >= cut) || (!suffix && i < cut) {
+				rest[i] = -1
+			}
+		}
+		if atBoundary {
+			k.st.add("c12.edits.at_chunk_boundary", 1)
+			k.st.add("c12.truncations.at_chunk_boundary", 1)
+		}
+		style := r.Intn(3)
+		m, _ := k.transform(k.canon, k.target, rest, 1+r.Intn(2), false, style, nil)
+		k2 := *k
+		k2.target, k2.canon = rest, w.build(rest)
+		if k2.canon.Height() != siC.height {
+			k.st.add("c12.routes.height_changed", 1)
+		}
+		name := "truncate-prefix"
+		if suffix {
+			name = "truncate-suffix"
+		}
+		k2.compare(name, m, map[string]any{"cut_rank": cut, "cut_at_chunk_boundary": atBoundary, "style": style})
+		k.failed = k.failed || k2.failed
 	}
 }
 
@@ -746,6 +794,11 @@ func c12JSON(c *rig.Ctx, st *stats, idx int) {
 	for i := 0; i < nkeys; i++ {
 		doc[fmt.Sprintf("k%05d", r.Intn(nkeys*3))] = genJSONValue(r, 0)
 	}
+	existing := make([]string, 0, len(doc))
+	for k := range doc {
+		existing = append(existing, k)
+	}
+	sort.Strings(existing)
 	root, err := tree.SerializeJsonToAddr(bg, ns, gmstypes.JSONDocument{Val: doc})
 	rig.Must(wrapErr("SerializeJsonToAddr", err))
 	var cur gmstypes.MutableJSON = tree.NewIndexedJsonDocument(root, ns)
@@ -758,6 +811,9 @@ func c12JSON(c *rig.Ctx, st *stats, idx int) {
 			return
 		}
 		key := fmt.Sprintf("k%05d", r.Intn(nkeys*3))
+		if r.Intn(10) < 7 { // mostly keys that exist, so that set/replace/remove really edit
+			key = existing[r.Intn(len(existing))]
+		}
 		path := "$." + key
 		if r.Intn(3) == 0 {
 			path += fmt.Sprintf(".f%d", r.Intn(20))
